@@ -289,6 +289,8 @@ def finish_with_model(rep, prop, pairs, oracle_fail, proofs_ok):
     for i in mism[:50]:
         c, r = pairs[i]
         broken.append("correspondence impl<->model: %s" % json.dumps(c.describe()))
+    # a failing input counts only if it was actually reported (a listed known finding is not one)
+    oracle_fail = builtins.any(not no_input for _sig, _replay, no_input in rep.violations)
     if broken and not oracle_fail:
         # tie broken but the oracle found no failing input among everything explored: still a violation
         for i in mism[:3]:
